@@ -113,12 +113,21 @@ func programs(thorough bool) (two, three []*program) {
 		add(&two, mutual, "Decode(1)||Decode(2)", T(D(1, 0)), T(D(2, 0)))
 		add(&two, mutual, "Decode(1)||Decode(1)", T(D(1, 0)), T(D(1, 0)))
 		add(&three, mutual, "Excl(1)||Decode(2) (2 goroutines, sampled)", T(X(1, 0)), T(D(2, 0)))
-		add(&three, mutual, "Excl(1)||Excl(2) (2 goroutines, sampled)", T(X(1, 0)), T(X(2, 0)))
 	} else {
 		add(&three, mutual, "Decode(1)||Decode(2) (2 goroutines, sampled)", T(D(1, 0)), T(D(2, 0)))
 		add(&three, mutual, "Decode(1)||Decode(1) (2 goroutines, sampled)", T(D(1, 0)), T(D(1, 0)))
 		add(&three, mutual, "Excl(1)||Decode(2) (2 goroutines, sampled)", T(X(1, 0)), T(D(2, 0)))
 	}
+	// two exclusive leaders on different references whose decode functions follow the link to the
+	// other object with the plain Decode (F <-> G), and the three-party ring: plain Decode never waits
+	add(&three, mutual, "Excl(1)||Excl(2) (2 goroutines, sampled)", T(X(1, 0)), T(X(2, 0)))
+	ring := mk("ring 1->2->3->1", 3, true)
+	ring.body[[2]int{1, 0}] = T(Dc(2, 0))
+	ring.body[[2]int{2, 0}] = T(Dc(3, 0))
+	ring.body[[2]int{3, 0}] = T(Dc(1, 0))
+	ring.build()
+	add(&three, ring, "Excl(1)||Excl(2)||Excl(3)", T(X(1, 0)), T(X(2, 0)), T(X(3, 0)))
+	add(&three, ring, "Excl(1)||Excl(2)||Decode(3)", T(X(1, 0)), T(X(2, 0)), T(D(3, 0)))
 	// one-sided: only the decoder of 1 refers to 2 (small enough for all schedules)
 	half := mk("nested 1->2", 2, true)
 	half.body[[2]int{1, 0}] = T(Dc(2, 0))
